@@ -116,6 +116,8 @@ pub proof fn lemma_item_at(b: Seq<u8>, c: Seq<Chrom>, key: int, i: int)
 }
 
 // ---- verified helpers standing in for non-Verus std calls ----
+/// R12u64: std::cmp::min on u64 (not used by the pinned code; present so that an edit to `min` is judged, not rejected)
+pub fn min_u64(a: u64, b: u64) -> (r: u64) ensures r == if a <= b { a } else { b } { if a <= b { a } else { b } }
 /// R12u64: std::cmp::max on u64
 pub fn max_u64(a: u64, b: u64) -> (r: u64)
     ensures r == imax(a as int, b as int),
